@@ -1,2 +1,112 @@
-(* C20 - placeholder, theorems follow *)
-From DV Require Import Lib.Base ObjTree.ObjTree Spec.ObjtreeSpec.
+(* C20 — object-path handlers are chosen by exact path, then nearest fallback.
+   Only theorem statements closed by [exact]; proofs live in Proofs/Objtree*.v.
+
+   [run ops]   = the model of dbus-object-tree.c after the history [ops] on a fresh connection
+   [s_run ops] = the flat map  path |-> (handler, is_fallback)  of the specification
+   Every statement is for ALL histories of register / register-fallback /
+   unregister and ALL called paths; each also says that the model neither
+   faults (array index out of range) nor runs out of fuel. *)
+From DV Require Import Lib.Base ObjTree.ObjTree Spec.ObjtreeSpec Proofs.ObjtreeOrder Proofs.ObjtreeProofs.
+From Coq Require Import Sorted.
+
+(* (1) offered first to the exact handler, then to the fallbacks of successively
+   shorter ancestors, stopping at the first that declares it handled *)
+Theorem C20_order : forall ops p accepts,
+  exists t invoked out, run ops = Ok t /\ tree_dispatch t p accepts = Ok (invoked, out) /\
+    s_invocation (s_offered (s_run ops) p) accepts invoked (is_handled out).
+Proof. exact order_correct. Qed.
+Print Assumptions C20_order.
+
+(* (2) registering an occupied path fails without changing anything (the whole
+   tree, flags included, is identical) *)
+Theorem C20_register_occupied_noop : forall ops fb p h,
+  s_registered (s_run ops) p ->
+  exists t, run ops = Ok t /\ step t (Register fb p h) = Ok (t, false).
+Proof. exact register_occupied_noop. Qed.
+Print Assumptions C20_register_occupied_noop.
+
+Theorem C20_register_free_succeeds : forall ops fb p h,
+  ~ s_registered (s_run ops) p ->
+  exists t t', run ops = Ok t /\ step t (Register fb p h) = Ok (t', true).
+Proof. exact register_free_ok. Qed.
+Print Assumptions C20_register_free_succeeds.
+
+(* (3) the child listing reflects exactly the registered tree: strictly sorted
+   (so duplicate-free), and e is listed below p iff some registered path
+   starts with p/e *)
+Theorem C20_children : forall ops p,
+  exists t l, run ops = Ok t /\ list_registered t p = Ok l /\ StronglySorted blt l /\
+    forall e, In e l <-> s_child (s_run ops) p e.
+Proof. exact children_correct. Qed.
+Print Assumptions C20_children.
+
+(* (4) trie invariant for all histories: children sorted by strcmp (hence unique)
+   at every node, no childless unregistered non-root node *)
+Theorem C20_tree_invariant : forall ops, exists t, run ops = Ok t /\ wf t.
+Proof. exact tree_invariant. Qed.
+Print Assumptions C20_tree_invariant.
+
+(* every step of every history refines the flat map, return values included *)
+Theorem C20_refinement : forall ops o,
+  exists t t' b, run ops = Ok t /\ step t o = Ok (t', b) /\ b = snd (s_step (s_run ops) o) /\
+    forall q, amap t' q = s_lookup (fst (s_step (s_run ops) o)) q.
+Proof. exact refinement_step. Qed.
+Print Assumptions C20_refinement.
+
+(* (5) error choice.  The full statement, which the faithful model does NOT meet (F12): *)
+Definition C20_error_full_statement : Prop := forall ops p accepts,
+  exists t invoked out, run ops = Ok t /\ tree_dispatch t p accepts = Ok (invoked, out) /\
+    (is_handled out = false -> s_error (s_run ops) p out).
+
+(* proved part: whenever the property demands UnknownMethod (registered path,
+   ancestor of one, below a fallback registration) UnknownObject is not sent ... *)
+Theorem C20_error_partial : forall ops p accepts,
+  s_known_object (s_run ops) p ->
+  exists t invoked out, run ops = Ok t /\ tree_dispatch t p accepts = Ok (invoked, out) /\ out <> UnknownObject.
+Proof. exact error_method_sound. Qed.
+Print Assumptions C20_error_partial.
+
+(* ... and the exception, spelled out: as long as no NON-fallback handler has ever
+   been registered at "/", UnknownObject is never sent for any path at all *)
+Theorem C20_error_root_fallback : forall ops p accepts,
+  forallb (fun o => negb (root_exact_registration o)) ops = true ->
+  exists t invoked out, run ops = Ok t /\ tree_dispatch t p accepts = Ok (invoked, out) /\ out <> UnknownObject.
+Proof. exact error_root_fallback. Qed.
+Print Assumptions C20_error_root_fallback.
+
+(* refutation witness: nothing registered, call to /nope: the property demands
+   UnknownObject, the code (model) sends UnknownMethod.  Replayed on the real
+   connection by the check: corpus line "c c:/nope:-". *)
+Theorem C20_error_refuted : ~ C20_error_full_statement.
+Proof. exact error_refuted. Qed.
+Print Assumptions C20_error_refuted.
+
+(* the stale-flag variant of the same defect: after register-fallback /a,
+   register /a/b, unregister /a, a call to /a/x still counts as a known object
+   even on a connection whose root lost its flag *)
+Example ex_stale_flag :
+  let a := [97%N] in let b := [98%N] in let x := [120%N] in
+  let ops := [Register false [] 1%N; Register true [a] 2%N; Register false [a; b] 3%N; Unregister [a]] in
+  (exists t, run ops = Ok t /\ tree_dispatch t [a; x] (fun _ => false) = Ok ([], UnknownMethod)) /\
+  s_lookup (s_run ops) [a] = None.
+Proof. split; [eexists; split; vm_compute; reflexivity | reflexivity]. Qed.
+
+(* non-vacuity *)
+Example ex_order :
+  let a := [97%N] in let b := [98%N] in let c := [99%N] in
+  exists t, run [Register true [a] 1%N; Register false [a; b] 2%N; Register true [] 3%N; Register true [a; b; c] 4%N;
+                 Unregister [a; b; c]] = Ok t /\
+    tree_dispatch t [a; b] (fun _ => false) = Ok ([2; 1; 3]%N, UnknownMethod) /\
+    tree_dispatch t [a; b; c] (fun h => N.eqb h 1) = Ok ([1]%N, Handled) /\
+    list_registered t [a] = Ok [b] /\ list_registered t [a; b] = Ok [].
+Proof. eexists; repeat split; vm_compute; reflexivity. Qed.
+
+Example ex_unknown_object :
+  exists t, run [Register false [] 1%N] = Ok t /\ tree_dispatch t nope (fun _ => false) = Ok ([], UnknownObject).
+Proof. eexists; split; vm_compute; reflexivity. Qed.
+
+Example ex_occupied : s_registered (s_run [Register true [[97%N]] 1%N]) [[97%N]].
+Proof. vm_compute. discriminate. Qed.
+
+Example ex_known_object : s_known_object (s_run [Register true [[97%N]] 1%N]) [[97%N]; [98%N]].
+Proof. right. exists [[97%N]], [[98%N]], 1%N. split; reflexivity. Qed.
